@@ -379,20 +379,31 @@ TIES = {
 
 def run_src_tie(run, rng, tier, prop, functions=None):
     """compare Src.<f> with the real function for every translated function owned by `prop` (or `functions`).
-    Records counts in run.extra['src_tie_validated']; raises RuntimeError on any disagreement (trusted base wrong)."""
+    Records counts in run.extra['src_tie_validated'] and disagreements in run.extra['src_tie_disagreements']; returns the
+    disagreements (a lost tie for that function, reported by the caller; never a verdict, never a harness error)."""
     from . import py2lean
     names = functions if functions is not None else [t["lean"] for t in py2lean.TARGETS if t["prop"] == prop]
     n = 400 if tier == "quick" else 4000
     res = {}
+    disagreements = []
     for name in names:
         f = TIES.get(name)
         if f is None:
             res[name] = "no executable tie"
             continue
-        total, bad = f(rng, n)
+        try:
+            total, bad = f(rng, n)
+        except Exception as e:   # the real function may raise on a changed tree; that is for the property check to judge
+            res[name] = f"executable tie could not run: {e!r}"[:300]
+            disagreements.append((name, res[name]))
+            continue
         res[name] = total
         if bad:
-            raise RuntimeError(f"source translator / prelude disagree with the real `{name}` on {len(bad)} of {total} inputs "
-                               f"(trusted base wrong, not a property verdict), e.g. {bad[0]}")
+            # never a verdict and never a harness error: the tie of this function is lost (translator / prelude do not
+            # describe what the function does on the tree under test); the correspondence of the hand model decides
+            disagreements.append((name, f"generated definition and real function differ on {len(bad)} of {total} inputs, "
+                                        f"e.g. {bad[0]}"[:400]))
     run.extra["src_tie_validated"] = res
-    return res
+    if disagreements:
+        run.extra["src_tie_disagreements"] = dict(disagreements)
+    return disagreements
